@@ -576,7 +576,7 @@ func c18Extension(r *eng.Run) {
 // reads the next message exactly as a new Reader would.
 func c18ReaderNext(r *eng.Run) {
 	r.SetEntry("Reader.consecutive")
-	cfg := ReadCfg{App: AppReader, CheckUTF8: r.T.Bool(sim.LCfg), OnInter: r.T.Int(sim.LCfg, 4), OnCont: r.T.Bool(sim.LCfg)}
+	cfg := ReadCfg{App: AppReader, CheckUTF8: r.T.Bool(sim.LCfg), OnInter: r.T.Int(sim.LCfg, 4), OnCont: r.T.Bool(sim.LCfg), ProbeIdle: true}
 	if r.T.Bool(sim.LSide) {
 		cfg.Side = ref.Client
 	}
